@@ -1,5 +1,9 @@
 #!/bin/bash
 # debug helper: run one M obligation verbosely in the background; logs in /tmp/m-<name>.{out,err}
+# (the dump is (re)generated for /repo's CURRENT working tree first)
 N=$1; shift
 cd /verif
-MIRSMT_VERBOSE=1 timeout ${TMO:-900} python3-vt mirsmt/run_one.py $N --tier ${TIER:-quick} --mir $(ls /root/.cache/verif-work/mir/chrono-*-${FEAT:-std}.mir | head -n 1) --src $(ls -d /root/.cache/verif-work/mir/src-*) --probe /root/.cache/verif-work/probe/target/debug/chrono-verif-probe "$@" > /tmp/m-$N.out 2> /tmp/m-$N.err &
+read MIR SRC < <(python3-vt -c "
+import sys; sys.path.insert(0, '/verif/lib'); import mir_engine as M
+m, s = M.ensure_dump('${FEAT:-std}'.replace('+', ',')); print(m, s)")
+MIRSMT_VERBOSE=1 timeout ${TMO:-900} python3-vt mirsmt/run_one.py $N --tier ${TIER:-quick} --mir $MIR --src $SRC --probe /root/.cache/verif-work/probe/target/debug/chrono-verif-probe "$@" > /tmp/m-$N.out 2> /tmp/m-$N.err &
